@@ -37,7 +37,9 @@ func ReadYamlString(s string) (JsonNode, error) {
 }
 
 func unmarshal(bytes []byte, fn func([]byte, interface{}) error) (JsonNode, error) {
-	if strings.TrimSpace(string(bytes)) == "" {
+	// Only JSON / YAML white space makes an empty document. Unicode
+	// spaces such as U+00A0 are content (a YAML plain scalar).
+	if strings.Trim(string(bytes), " \t\r\n") == "" {
 		return voidNode{}, nil
 	}
 	var v interface{}
